@@ -10,6 +10,7 @@ import (
 	"fmt"
 	"go/token"
 	"go/types"
+	"strings"
 
 	"golang.org/x/tools/go/ssa"
 )
@@ -368,6 +369,7 @@ func checkC19(c *Ctx, r *Report) {
 	loaderNormalisesRule(c, r)
 	addNilConfigRule(c, r)
 	loaderErrorPairRule(c, r)
+	observersReadOnlyRule(c, r)
 }
 
 // loaderErrorPairRule (R19g): a flag loader answers (config, error for the collector, error for the flag package).
@@ -556,4 +558,32 @@ func valueKey(v ssa.Value) string {
 		}
 	}
 	return ""
+}
+
+// observersReadOnlyRule (R19h): the collected configuration is the sequential merge of the arguments, and the only
+// thing that stops the collection is a failing argument. The only way into Collector.Add — which merges and latches —
+// is therefore FlagValue.Set: an observer (String, which package flag itself calls when a flag is registered and when
+// it prints defaults; Get, Config, Error) that reaches Add can latch an error of its own, and every later argument is
+// dropped although none failed. Decided on the call graph (VTA: function values and bound methods are followed).
+func observersReadOnlyRule(c *Ctx, r *Report) {
+	r.Rule("R19h", "no observer of a flag value (every exported method of FlagValue but Set) reaches Collector.Add", 4)
+	add := c.Method("cfgutil", "Collector", "Add")
+	fv := c.Named("flag", "FlagValue")
+	ms := c.Prog.MethodSets.MethodSet(types.NewPointer(fv))
+	for i := 0; i < ms.Len(); i++ {
+		sel := ms.At(i)
+		if !sel.Obj().Exported() || sel.Obj().Name() == "Set" {
+			continue
+		}
+		fn := c.Prog.MethodValue(sel)
+		if fn == nil {
+			continue
+		}
+		reach := c.Reach([]*ssa.Function{fn}, nil, nil)
+		if reach[add] {
+			r.Bad("R19h", c.FnName(fn), "reads only", c.Pos(fn.Pos()), "this observer reaches Collector.Add ("+strings.Join(c.PathTo(fn, add, nil), " → ")+"): looking at the flag value can latch an error in the collector, after which every later argument is dropped although no argument failed (package flag calls String() when the flag is registered)")
+		} else {
+			r.OK("R19h", c.FnName(fn), "reads only", c.Pos(fn.Pos()), fmt.Sprintf("%d functions reachable, Collector.Add is not among them", len(reach)))
+		}
+	}
 }
